@@ -71,7 +71,7 @@ Proof.
   - destruct (d_declare_faults_recovered tbl d psm) as [d'|] eqn:E; [|exact Hsame].
     apply Hchk; [exact Hk|]. eapply d_declare_faults_recovered_inv; eauto.
   - destruct (d_compact_partitions qs tbl d psize tr) as [[d' dead]|] eqn:E; [|exact Hsame].
-    destruct (d_compact_partitions_inv qs tbl d psize tr d' dead Hu Hk Hps HD E) as [HD' Hk'].
+    destruct (d_compact_partitions_inv qs tbl d psize tr d' dead Hu Hk Hps HD E) as (HD' & Hk' & _).
     apply Hchk; assumption.
   - destruct (d_pop_early_terminations d mp ms) as [[[[[d' res] np] ns] more]|] eqn:E; [|exact Hsame].
     apply Hchk; [exact Hk|]. eapply d_pop_early_terminations_inv; eauto.
